@@ -222,12 +222,18 @@ theorem defaults_applied (c : Ctx) (hc : c.setDefaults = true) (a : Attr) (req p
     ∃ kvs', v' = .obj kvs' ∧ ∀ p ∈ props, slotEmpty (Body.lookup p.1 kvs') = true → dfltFor c p.2.attr = none :=
   visit_obj_settled c hc a req props addl kvs v' h
 
-/-- **The body is re-encoded only for a reason … almost.**  If the `DefaultsSet` callback ran nowhere during an accepted
-visit (`touched = false`), the forwarded value is the received one.  The converse fails (class `ReencodedUnchanged`,
-F-C13-11, witness in Part 4): the callback also runs for a default written into a discarded candidate's copy. -/
-theorem callback_not_run_value_unchanged (c : Ctx) (s : S) (hw : wf s = true) (v v' : J)
-    (h : visit c s v = some v') (ht : touched c s v = false) : v' = v :=
-  untouched_unchanged c s hw v v' h ht
+/-- **The `DefaultsSet` callback runs iff the accepted value changes** — so the body is re-encoded exactly when a
+default was set in it.  Full strength: the class `ReencodedUnchanged` (F-C13-11: the callback also ran for a default
+written into a discarded oneOf/anyOf candidate's private copy) is repaired (commit 6a3f133) and deleted. -/
+theorem callback_runs_iff_value_changes (c : Ctx) (s : S) (hw : wf s = true) (v v' : J)
+    (h : visit c s v = some v') : touched c s v = true ↔ v' ≠ v :=
+  touched_iff_changed c s hw v v' h
+
+/-- Defaults only ever add members: an accepted visit never makes the value smaller, and makes it bigger iff the
+callback ran. -/
+theorem forwarded_value_never_smaller (c : Ctx) (s : S) (v v' : J) (h : visit c s v = some v') :
+    v.size ≤ v'.size ∧ (touched c s v = true → v.size < v'.size) :=
+  ⟨visit_size_le c s v v' h, touched_grows c s v v' h⟩
 
 /-- **defaults_idempotent (no compositions).** For schemas built from objects, arrays and leaves — any depth —
 validating the forwarded value again accepts it and changes nothing. -/
@@ -373,34 +379,26 @@ theorem param_other_keys_untouched (skip : Bool) (p : Param) (st : Store) (k : K
 
 /-- **defaults appear with that default and nothing else changes (model = spec, partial).**  Full statement: for an
 accepted parameter the request afterwards is the spec's — unchanged if the parameter is present or has no default, else
-its key holds the default in the serialisation the parameter's own decoder reads.  It fails for an absent parameter
-that is described by `content` (`ContentParamDefault`, F-C13-9) and for an empty array default that is written as an
-empty value (`EmptyArrayWritten`, F-C13-10) — witnesses below; outside these two classes it holds. -/
+its key holds the default in the serialisation the parameter's own decoder reads (nothing for an array without
+members: F-C13-10 is repaired, commit 9af6bbd, its class is gone).  It fails for an absent parameter that is described
+by `content` (`ContentParamDefault`, F-C13-9, witness below); outside that class it holds. -/
 theorem param_step_eq_spec_partial (skip : Bool) (p : Param) (st : Store)
-    (hx : ContentParamDefault skip p st = false) (hx2 : EmptyArrayWritten skip p st = false)
+    (hx : ContentParamDefault skip p st = false)
     (hok : (paramStep skip p st).2 = true) : (paramStep skip p st).1 = specStep skip p st := by
   unfold paramStep at hok ⊢
   rw [stepWith_fst]
   unfold specStep
   cases ha : applied skip p (st.get p.key) with
   | some d =>
-    obtain ⟨h1, h2, h3, h4⟩ := applied_some_absent skip p _ d ha
+    obtain ⟨h1, h2, h3, _⟩ := applied_some_absent skip p _ d ha
     subst h2
     simp only [Bool.false_eq_true, ↓reduceIte, h3]
-    have hd : d ≠ .list [] ∨ encodeDefault p d = [] := by
-      by_cases e : d = .list []
-      · right
-        subst e
-        unfold EmptyArrayWritten at hx2
-        rw [h1, h3, h4] at hx2
-        simpa using hx2
-      · exact Or.inl e
     by_cases hpath : p.loc = .path
     · have e2 := specEncode_path p d hpath
       simp only [writeDefault, encodeDefault_path p d hpath]
       cases st.get p.key <;> simp [e2]
     · rw [decode_nil_false_absent p _ hpath h1]
-      simp only [writeDefault, encodeDefault_eq_spec p d hd]
+      simp only [writeDefault, encodeDefault_eq_spec p d]
   | none =>
     simp only
     cases hs : skip with
@@ -482,7 +480,7 @@ theorem param_default_validates_partial (skip : Bool) (p : Param) (st : Store)
       unfold paramStep stepWith
       rw [writeDefault_get p d st hnil hg]
       simp only [h4, Bool.false_eq_true, ↓reduceIte]
-      have hallow : (p.ty = .untyped ∨ encodeDefault p d = [.empty]) → p.allowEmpty = true := by
+      have hallow : p.ty = .untyped → p.allowEmpty = true := by
         intro hcase
         cases hal : p.allowEmpty with
         | true => rfl
@@ -491,17 +489,13 @@ theorem param_default_validates_partial (skip : Bool) (p : Param) (st : Store)
           have : DefaultReadsAsEmpty false p st = true := by
             unfold DefaultReadsAsEmpty
             rw [hg, h1, h3]
-            rcases hcase with hc | hc <;> simp [hal, hnil, hc, h4]
+            simp [hal, hnil, hcase, h4]
           rw [this] at hx; cases hx
       by_cases hty : p.ty = .untyped
       · -- a schema without type: found, no value; accepted only with allowEmptyValue
         have hd : decode p (some (encodeDefault p d)) = .nil true := by unfold decode; simp [hty]
-        simp [hd, hallow (Or.inl hty), hok'.1]
-      · by_cases hem : encodeDefault p d = [.empty]
-        · have hd := decode_empty p hpath hty h1
-          rw [hem, hd]
-          simp [hallow (Or.inr hem), hok'.1]
-        · rw [decode_written_valid p d hok'.2 hty h1 hnil hem]
+        simp [hd, hallow hty, hok'.1]
+      · rw [decode_written_valid p d hok'.2 hty h1 hnil (encodeDefault_ne_empty p d)]
 
 /-- **Every parameter step on an already validated request is a no-op ⇒ so is the whole phase.** -/
 theorem params_fixed_of_steps (skip multi : Bool) : ∀ (ps : List Param) (st : Store),
@@ -581,13 +575,12 @@ theorem params_n_validations_accept_partial (skip multi : Bool) (ps : List Param
 
 /-- **All parameters: forwarded request = spec (partial).**  The parameters of an accepted request are exactly the
 spec's — every absent parameter with a default carries it, nothing else changed — provided no parameter is in the
-classes `ContentParamDefault`, `EmptyArrayWritten`. -/
+class `ContentParamDefault`. -/
 theorem params_eq_spec_partial (skip multi : Bool) : ∀ (ps : List Param) (st : Store),
     keysDistinct ps = true → (∀ p ∈ ps, ContentParamDefault skip p st = false) →
-    (∀ p ∈ ps, EmptyArrayWritten skip p st = false) →
     (paramsPhase skip multi ps st).2 = true → (paramsPhase skip multi ps st).1 = specParams skip ps st
-  | [], st, _, _, _, _ => rfl
-  | p :: ps, st, hk, hx, hy, hok => by
+  | [], st, _, _, _ => rfl
+  | p :: ps, st, hk, hx, hok => by
     simp only [keysDistinct, Bool.and_eq_true, List.all_eq_true, bne_iff_ne, ne_eq] at hk
     obtain ⟨ok1, ok2, e⟩ := paramsPhase_ok_cons skip multi p ps st hok
     have hx' : ∀ q ∈ ps, ContentParamDefault skip q (paramStep skip p st).1 = false := by
@@ -595,12 +588,8 @@ theorem params_eq_spec_partial (skip multi : Bool) : ∀ (ps : List Param) (st :
       have := hx q (by simp [hq])
       unfold ContentParamDefault at this ⊢
       rw [paramStep_other skip p st q.key (hk.1 q hq)]; exact this
-    have hy' : ∀ q ∈ ps, EmptyArrayWritten skip q (paramStep skip p st).1 = false := by
-      intro q hq
-      rw [emptyArrayWritten_congr skip q _ st (paramStep_other skip p st q.key (hk.1 q hq))]
-      exact hy q (by simp [hq])
-    rw [e, params_eq_spec_partial skip multi ps _ hk.2 hx' hy' ok2,
-      param_step_eq_spec_partial skip p st (hx p (by simp)) (hy p (by simp)) ok1]
+    rw [e, params_eq_spec_partial skip multi ps _ hk.2 hx' ok2,
+      param_step_eq_spec_partial skip p st (hx p (by simp)) ok1]
     rfl
 
 /-- **The query cache is harmless.**  ValidateRequest decodes query parameters from `input.QueryParams` and writes
@@ -623,27 +612,33 @@ theorem witness_content_param_default :
 
 /-- F-C13-7 (open): a schema without `type` and default 7, parameter absent: `u=7` is written and the request accepted;
     the next validation finds `u` without a value and rejects it ("empty value is not allowed"); nothing is written
-    again.  Same for an empty array default joined by ",". -/
+    again. -/
 theorem witness_default_reads_as_empty :
     let p : Param := { name := "u", loc := .query, ty := .untyped, dflt := some (.sc (.int 7)), required := false, allowEmpty := false, explode := true }
     DefaultReadsAsEmpty false p [] = true ∧
     paramStep false p [] = ([((.query, "u"), [.lit (.int 7)])], true) ∧
     paramStep false p (paramStep false p []).1 = ([((.query, "u"), [.lit (.int 7)])], false) := by decide
 
-theorem witness_empty_array_default_reads_as_empty :
+/-- regression (F-C13-10 and the empty-array half of F-C13-7, repaired by 9af6bbd): an absent parameter whose default is
+    the empty array — query without explode, header, cookie — is accepted, NOTHING is written (model = spec), and the
+    forwarded request is accepted again, unchanged.  (Before the repair: `e=` was written and rejected on re-validation.) -/
+theorem regression_empty_array_default_not_written :
     let e : Param := { name := "e", loc := .query, ty := .array .integer, dflt := some (.list []), required := false, allowEmpty := false, explode := false }
-    DefaultReadsAsEmpty false e [] = true ∧
-    paramStep false e [] = ([((.query, "e"), [.empty])], true) ∧
-    paramStep false e (paramStep false e []).1 = ([((.query, "e"), [.empty])], false) := by decide
+    let h : Param := { name := "X-E", loc := .header, ty := .array .integer, dflt := some (.list []), required := false, allowEmpty := false, explode := false }
+    let k : Param := { name := "ck", loc := .cookie, ty := .array .integer, dflt := some (.list []), required := false, allowEmpty := false, explode := false }
+    DefaultReadsAsEmpty false e [] = false ∧
+    paramStep false e [] = ([], true) ∧ specStep false e [] = [] ∧ paramStep false e (paramStep false e []).1 = ([], true) ∧
+    paramStep false h [] = ([], true) ∧ specStep false h [] = [] ∧
+    paramStep false k [] = ([], true) ∧ specStep false k [] = [] ∧
+    paramStep false { e with explode := true } [] = ([], true) := by
+  intro e h k
+  refine ⟨by decide, by decide, by decide, by decide, by decide, by decide, by decide, by decide, by decide⟩
 
-/-- F-C13-10 (new, open): the same empty array default, seen against the spec: `e=` is written where the serialisation
-    of an array without members is nothing (with `explode` nothing is written: model = spec there) -/
-theorem witness_empty_array_written :
-    let e : Param := { name := "e", loc := .query, ty := .array .integer, dflt := some (.list []), required := false, allowEmpty := true, explode := false }
-    EmptyArrayWritten false e [] = true ∧ (paramStep false e []).1 = [((.query, "e"), [.empty])] ∧ specStep false e [] = [] ∧
-    EmptyArrayWritten false { e with explode := true } [] = false ∧
-    (paramStep false { e with explode := true } []).1 = specStep false { e with explode := true } [] ∧
-    EmptyArrayWritten false { e with loc := .header, name := "X-E" } [] = true := by decide
+/-- regression (repaired by c3da93a): an optional cookie parameter described by `content` that is absent is accepted
+    (before the repair the lookup's ErrNoCookie was returned as the error); a required one is rejected -/
+theorem regression_absent_content_cookie :
+    let p : Param := { name := "ck", loc := .cookie, ty := .sc .integer, dflt := none, required := false, allowEmpty := false, explode := false, content := true }
+    paramStep false p [] = ([], true) ∧ paramStep false { p with required := true } [] = ([], false) := by decide
 
 /-- regression (F-C13-3, repaired): `?q=` with `q: integer, default 7` — nothing is appended any more -/
 theorem regression_empty_present :
@@ -735,16 +730,15 @@ theorem visited_keysDistinct (exq : Bool) (pp op : List Param) (h1 : keysDistinc
 
 /-- **The forwarded parameters of a whole request = spec, and a second validation changes nothing** — for path-item and
 operation parameters together, overrides and excluded query parameters included (model = spec outside
-`ContentParamDefault` and `EmptyArrayWritten`; idempotence at full strength). -/
+`ContentParamDefault`; idempotence at full strength). -/
 theorem request_params_eq_spec_and_idempotent (skip multi exq : Bool) (pp op : List Param) (st : Store)
     (h1 : keysDistinct pp = true) (h2 : keysDistinct op = true)
     (hx : ∀ p ∈ visited exq pp op, ContentParamDefault skip p st = false)
-    (hy : ∀ p ∈ visited exq pp op, EmptyArrayWritten skip p st = false)
     (hok : (paramsPhase skip multi (visited exq pp op) st).2 = true) :
     (paramsPhase skip multi (visited exq pp op) st).1 = specParams skip (visited exq pp op) st ∧
     (paramsPhase skip multi (visited exq pp op) (paramsPhase skip multi (visited exq pp op) st).1).1 =
       (paramsPhase skip multi (visited exq pp op) st).1 :=
-  ⟨params_eq_spec_partial skip multi _ st (visited_keysDistinct exq pp op h1 h2) hx hy hok,
+  ⟨params_eq_spec_partial skip multi _ st (visited_keysDistinct exq pp op h1 h2) hx hok,
    params_idempotent skip multi _ st (visited_keysDistinct exq pp op h1 h2) hok⟩
 
 /-- With ExcludeRequestQueryParams no query parameter of the request is touched. -/
@@ -816,99 +810,114 @@ theorem registries_recognised :
     Gen.bodyEncoders.all (fun r => match r with | .unrecognised _ => false | .reg _ _ => true) = true := by decide
 
 /-- **`decoderOf` is the decoder registry of the source**: every registered media type is decoded by the decoder the
-model names — JSON, text, YAML — or is one of the four media types listed as outside the fragment; a media type the
-model gives a decoder is registered. -/
+model names — JSON, text, YAML, form — or is one of the three media types listed as outside the fragment; a media type
+the model gives a decoder is registered. -/
 theorem decoder_registry_is_code :
     Gen.bodyDecoders.all (fun r => match r with
       | .reg k "JSONBodyDecoder" => decoderOf k == .json
       | .reg k "PlainBodyDecoder" => decoderOf k == .plain
       | .reg k "YamlBodyDecoder" => decoderOf k == .yaml
+      | .reg k "UrlencodedBodyDecoder" => decoderOf k == .form
       | .reg k _ => unmodelledTypes.contains k && decoderOf k == .none
       | .unrecognised _ => false) = true ∧
-    (jsonTypes ++ ["text/plain"] ++ yamlTypes ++ unmodelledTypes).all (fun k =>
+    (jsonTypes ++ ["text/plain"] ++ yamlTypes ++ [formType] ++ unmodelledTypes).all (fun k =>
       Gen.bodyDecoders.any (fun r => match r with | .reg k' _ => k' == k | _ => false)) = true ∧
-    Gen.bodyDecoders.length = (jsonTypes ++ ["text/plain"] ++ yamlTypes ++ unmodelledTypes).length := by decide
+    Gen.bodyDecoders.length = (jsonTypes ++ ["text/plain"] ++ yamlTypes ++ [formType] ++ unmodelledTypes).length := by decide
 
-/-- **`hasEncoder` is the encoder registry of the source**: the registered encoders are json.Marshal under exactly
-the media types of `encoderTypes`. -/
+/-- **`hasEncoder` is the encoder registry of the source**: json.Marshal under the six JSON media types, yaml.Marshal
+under the two YAML ones, nothing else. -/
 theorem encoder_registry_is_code :
-    Gen.bodyEncoders = encoderTypes.map (fun k => .reg k "json.Marshal") := by decide
+    Gen.bodyEncoders = jsonTypes.map (fun k => .reg k "json.Marshal") ++ yamlEncoderTypes.map (fun k => .reg k "yaml.Marshal") ∧
+    encoderTypes = jsonTypes ++ yamlEncoderTypes := by decide
 
-/-- **Every body the JSON decoder decodes can be written back** (repair 54b25f5) — on the registries of the source … -/
-theorem json_decoded_has_encoder_in_source :
+/-- **Every body the JSON or the YAML decoder decodes can be written back** (repairs 54b25f5, 3ff760b) — on the
+registries of the source … -/
+theorem json_yaml_decoded_has_encoder_in_source :
     Gen.bodyDecoders.all (fun r => match r with
       | .reg k "JSONBodyDecoder" => Gen.bodyEncoders.any (fun e => match e with | .reg k' _ => k' == k | _ => false)
+      | .reg k "YamlBodyDecoder" => Gen.bodyEncoders.any (fun e => match e with | .reg k' _ => k' == k | _ => false)
       | _ => true) = true := by decide
 
 /-- … and in the model, for every media type. -/
-theorem json_decoded_has_encoder (mediaType : String) (h : decoderOf mediaType = .json) : hasEncoder mediaType = true := by
+theorem json_yaml_decoded_has_encoder (mediaType : String)
+    (h : decoderOf mediaType = .json ∨ decoderOf mediaType = .yaml) : hasEncoder mediaType = true := by
   unfold decoderOf at h
   unfold hasEncoder encoderTypes
-  split at h
-  · assumption
-  · split at h
-    · cases h
-    · split at h <;> cases h
+  by_cases h1 : jsonTypes.contains mediaType = true
+  · rw [List.contains_append, h1]; rfl
+  · simp only [h1, Bool.false_eq_true, ↓reduceIte] at h
+    by_cases h2 : mediaType = "text/plain"
+    · simp [h2] at h
+    · simp only [h2, ↓reduceIte] at h
+      by_cases h3 : yamlTypes.contains mediaType = true
+      · have : mediaType = "application/x-yaml" ∨ mediaType = "application/yaml" := by simpa [yamlTypes] using h3
+        rcases this with e | e <;> subst e <;> decide
+      · simp only [h3, Bool.false_eq_true, ↓reduceIte] at h
+        split at h <;> rcases h with h | h <;> cases h
 
-/-- the decoders of the source that have NO encoder: exactly YAML and the unmodelled form / multipart / csv / file
-    decoders (what is left of F-C13-8; text, csv and file bodies decode to strings and never receive defaults) -/
+/-- the decoders of the source that have NO encoder: the form, multipart, csv, file and text decoders.  Text, csv and
+    file bodies decode to strings and never receive defaults; form and multipart bodies decode to objects: what is
+    left of F-C13-8. -/
 theorem decoders_without_encoder :
     (Gen.bodyDecoders.filterMap (fun r => match r with
       | .reg k d => if Gen.bodyEncoders.any (fun e => match e with | .reg k' _ => k' == k | _ => false) then none else some (k, d)
       | _ => none)) =
     [("application/octet-stream", "FileBodyDecoder"), ("application/x-www-form-urlencoded", "UrlencodedBodyDecoder"),
-     ("application/x-yaml", "YamlBodyDecoder"), ("application/yaml", "YamlBodyDecoder"),
      ("multipart/form-data", "MultipartBodyDecoder"), ("text/csv", "CsvBodyDecoder"), ("text/plain", "PlainBodyDecoder")] := by decide
 
 /-- **The body phase = spec (partial).**  Full statement: `bodyOutcome = specOutcome` — an accepted body is forwarded
 re-encoded iff a default was set in it.  It fails where the body was decoded by a decoder for which no encoder is
-registered (`NoBodyEncoder`, what is left of finding F-C13-8: YAML) and where the body is re-encoded although the value
-is unchanged (`ReencodedUnchanged`, F-C13-11: a default set only in a discarded oneOf/anyOf candidate) — witnesses
-below; outside these two classes it holds, for every Content-Type header (with or without parameters), every set of
-declared media types, every (well-formed) schema. -/
+registered (`NoBodyEncoder`, what is left of finding F-C13-8: the form decoder; witness below); outside that class
+it holds, for every Content-Type header (with or without parameters), every set of declared media types, every
+(well-formed) schema.  The class `ReencodedUnchanged` (F-C13-11) is repaired (commit 6a3f133) and deleted: the callback
+runs iff the value changes (`touched_iff_changed`). -/
 theorem body_outcome_eq_spec_partial (c : Ctx) (declared : List (String × Option S)) (hw : declaredWf declared = true)
     (header : String) (cd : Codec) (data : Stream.Bytes)
-    (hx : NoBodyEncoder c declared header cd data = false) (hy : ReencodedUnchanged c declared header cd data = false) :
+    (hx : NoBodyEncoder c declared header cd data = false) :
     bodyOutcome c declared header cd data = specOutcome c declared header cd data := by
   rw [bodyOutcome_eq, specOutcome_eq]
   rw [noBodyEncoder_eq] at hx
-  rw [reencodedUnchanged_eq] at hy
   split
   · rfl
   · cases hg : contentGet (declared.map (·.1)) header with
     | none => rfl
     | some key =>
-      simp only [hg] at hx hy ⊢
+      simp only [hg] at hx ⊢
       cases hs : schemaOf key declared with
       | none => rfl
       | some os =>
         cases os with
         | none => rfl
         | some s =>
-          simp only [hs] at hx hy ⊢
+          simp only [hs] at hx ⊢
           cases hd : decoded header cd data with
           | none => rfl
           | some v =>
-            simp only [hd] at hx hy ⊢
+            simp only [hd] at hx ⊢
             have hwf := schemaOf_wf key declared s hw hs
             rw [← visit_eq_spec c s hwf v]
             cases hv : visit c s v with
             | none => rfl
             | some v' =>
-              simp only [hv, DiscardedCandidateTouches] at hx hy ⊢
+              simp only [hv] at hx ⊢
               unfold finish finishSpec
               cases h1 : c.setDefaults with
               | false => simp
               | true =>
-                simp only [h1, Bool.true_and] at hx hy ⊢
+                simp only [h1, Bool.true_and] at hx ⊢
                 cases ht : touched c s v with
                 | false =>
                   have e := untouched_unchanged c s hwf v v' hv ht
                   subst e
                   simp [J.beq_refl]
                 | true =>
-                  simp only [ht, Bool.true_and, Bool.and_true, Bool.not_eq_false'] at hx hy
-                  simp [hx, hy]
+                  have hne : v' ≠ v := (touched_iff_changed c s hwf v v' hv).mp ht
+                  have hb : J.beq v' v = false := by
+                    cases hbb : J.beq v' v with
+                    | false => rfl
+                    | true => exact absurd (J.beq_eq v' v hbb) hne
+                  simp only [ht, Bool.and_true, Bool.not_eq_false'] at hx
+                  simp [hx, hb]
 
 /-- A text/plain body is never rewritten: it decodes to a string, and a string is forwarded as it is. -/
 theorem plain_body_never_rewritten (c : Ctx) (declared : List (String × Option S)) (header : String) (cd : Codec)
@@ -925,20 +934,21 @@ theorem plain_body_never_rewritten (c : Ctx) (declared : List (String × Option 
         | none => exact Or.inr rfl
         | some v' =>
           left
-          simp [finish, touched_str]
+          simp [finish, touched_str c _ _ v' hv]
       · exact Or.inl rfl
 
-/-- **The body phase = spec for every body the JSON or the text decoder decodes, and for every media type without a
-decoder**: F-C13-8 is repaired for the "+json" family (commit 54b25f5); only `ReencodedUnchanged` is left. -/
-theorem body_outcome_eq_spec_json (c : Ctx) (declared : List (String × Option S)) (hw : declaredWf declared = true)
-    (header : String) (cd : Codec) (data : Stream.Bytes) (hj : decoderOf (base header) ≠ .yaml)
-    (hy : ReencodedUnchanged c declared header cd data = false) :
+/-- **The body phase = spec, full strength, for every body the JSON, the YAML or the text decoder decodes, and for
+every media type without a decoder** (no exclusion): F-C13-8 is repaired for the "+json" family (54b25f5) and for YAML
+(3ff760b), F-C13-11 for all of them (6a3f133). -/
+theorem body_outcome_eq_spec_encodable (c : Ctx) (declared : List (String × Option S)) (hw : declaredWf declared = true)
+    (header : String) (cd : Codec) (data : Stream.Bytes) (hj : decoderOf (base header) ≠ .form) :
     bodyOutcome c declared header cd data = specOutcome c declared header cd data := by
-  apply body_outcome_eq_spec_partial c declared hw header cd data _ hy
+  apply body_outcome_eq_spec_partial c declared hw header cd data
   rw [noBodyEncoder_eq]
   cases hd : decoderOf (base header) with
-  | yaml => exact absurd hd hj
-  | json => simp [json_decoded_has_encoder _ hd]
+  | form => exact absurd hd hj
+  | json => simp [json_yaml_decoded_has_encoder _ (Or.inl hd)]
+  | yaml => simp [json_yaml_decoded_has_encoder _ (Or.inr hd)]
   | none =>
     cases hg : contentGet (declared.map (·.1)) header with
     | none => simp
@@ -961,9 +971,10 @@ theorem body_outcome_eq_spec_json (c : Ctx) (declared : List (String × Option S
           simp only [decoded, hd]
           cases hv : visit c s (.str (cd.text data)) with
           | none => simp
-          | some v' => simp [touched_str]
+          | some v' => simp [touched_str c s _ v' hv]
 
-/-- Nothing is rewritten when default-setting is skipped. -/
+/-- Nothing is rewritten when default-setting is skipped — and the body phase never answers "rewriting failed"
+(repaired code 4a27f6e: the encoder is looked up before it is called; the encoders of the fragment do not fail). -/
 theorem rewrite_only_with_defaults_on (c : Ctx) (hc : c.setDefaults = false) (declared : List (String × Option S))
     (header : String) (cd : Codec) (data : Stream.Bytes) :
     (∀ nd, bodyOutcome c declared header cd data ≠ .rewrite nd) ∧ bodyOutcome c declared header cd data ≠ .rewriteFails := by
@@ -982,6 +993,21 @@ theorem rewrite_only_with_defaults_on (c : Ctx) (hc : c.setDefaults = false) (de
         · simp
   rcases key with k | k <;> rw [k] <;> simp
 
+theorem never_rewriteFails (c : Ctx) (declared : List (String × Option S)) (header : String) (cd : Codec)
+    (data : Stream.Bytes) : bodyOutcome c declared header cd data ≠ .rewriteFails := by
+  rw [bodyOutcome_eq]
+  split
+  · simp
+  · split
+    · simp
+    · split
+      · split
+        · simp
+        · split
+          · simp
+          · unfold finish; split <;> simp
+      · simp
+
 /-- **skip_defaults_identity (whole body path).**  With default-setting skipped, after ValidateRequest — any security
 outcome, any Content-Type, any declared content, any schema, valid or invalid body — the next handler reads exactly
 the bytes that were received. -/
@@ -993,13 +1019,13 @@ theorem skip_defaults_body_identity (cfg : Stream.Cfg) (c : Ctx) (hc : c.setDefa
     (fun d nd => (rewrite_only_with_defaults_on c hc declared header cd d).1 nd)
 
 /-- **What is forwarded.**  If the body is rewritten, the new bytes are the encoding of what the value layer makes of
-the decoded body under the schema of the media type that the header selects — and the header's media type is one of
-the six of the JSON family. -/
+the decoded body under the schema of the media type that the header selects, a default WAS set in it (the value
+changed), and the header's media type has an encoder. -/
 theorem rewrite_is_encoded_visit (c : Ctx) (declared : List (String × Option S)) (header : String) (cd : Codec)
     (data nd : Stream.Bytes) (h : bodyOutcome c declared header cd data = .rewrite nd) :
     ∃ key s v v', contentGet (declared.map (·.1)) header = some key ∧ schemaOf key declared = some (some s) ∧
       decoded header cd data = some v ∧ visit c s v = some v' ∧ nd = cd.enc v' ∧ c.setDefaults = true ∧
-      jsonTypes.contains (base header) = true := by
+      touched c s v = true ∧ hasEncoder (base header) = true := by
   rw [bodyOutcome_eq] at h
   split at h
   · cases h
@@ -1025,35 +1051,33 @@ theorem rewrite_is_encoded_visit (c : Ctx) (declared : List (String × Option S)
               unfold finish at h
               split at h
               · rename_i hcond
-                split at h
-                · rename_i henc
-                  cases h
-                  simp only [Bool.and_eq_true] at hcond
-                  exact ⟨key, s, v, v', rfl, hs, rfl, hv, rfl, hcond.1, henc⟩
-                · cases h
+                cases h
+                simp only [Bool.and_eq_true] at hcond
+                exact ⟨key, s, v, v', rfl, hs, rfl, hv, rfl, hcond.1.1, hcond.1.2, hcond.2⟩
               · cases h
 
-/-- **The rewritten body is accepted by the next validation, and nothing new is written**: it is forwarded as it is, or
-re-encoded to the very same bytes — outside `BranchShift`, given that decoding what the encoder wrote gives the value
-back (trusted: encoding/json). -/
+/-- **The rewritten body is accepted as it is by the next validation** (no further rewrite): outside `BranchShift`,
+given that decoding what the encoder wrote gives the value back (trusted: encoding/json, yaml3). -/
 theorem rewritten_body_is_accepted (c : Ctx) (declared : List (String × Option S)) (hw : declaredWf declared = true)
     (header : String) (cd : Codec) (data nd : Stream.Bytes)
     (h : bodyOutcome c declared header cd data = .rewrite nd)
     (hrt : ∀ v, decoded header cd (cd.enc v) = some v)
     (hx : ∀ key s v, contentGet (declared.map (·.1)) header = some key → schemaOf key declared = some (some s) →
       decoded header cd data = some v → BranchShift c s v = false) :
-    bodyOutcome c declared header cd nd = .accept ∨ bodyOutcome c declared header cd nd = .rewrite nd := by
-  obtain ⟨key, s, v, v', hg, hs, hd, hv, rfl, _, henc⟩ := rewrite_is_encoded_visit c declared header cd data nd h
-  have hfix : visit c s v' = some v' :=
-    defaults_idempotent_partial c s (schemaOf_wf key declared s hw hs) v v' (hx key s v hg hs hd) hv
+    bodyOutcome c declared header cd nd = .accept := by
+  obtain ⟨key, s, v, v', hg, hs, hd, hv, rfl, _, _, _⟩ := rewrite_is_encoded_visit c declared header cd data nd h
+  have hwf := schemaOf_wf key declared s hw hs
+  have hfix : visit c s v' = some v' := defaults_idempotent_partial c s hwf v v' (hx key s v hg hs hd) hv
+  have hnt : touched c s v' = false := by
+    cases ht : touched c s v' with
+    | false => rfl
+    | true => exact absurd rfl ((touched_iff_changed c s hwf v' v' hfix).mp ht)
   rw [bodyOutcome_eq]
   have hne : declared.isEmpty = false := by
     cases declared with
     | nil => simp [schemaOf] at hs
     | cons _ _ => rfl
-  simp only [hne, Bool.false_eq_true, ↓reduceIte, hg, hs, hrt v', hfix, finish]
-  have he : hasEncoder (base header) = true := henc
-  cases c.setDefaults && touched c s v' <;> simp [he]
+  simp only [hne, Bool.false_eq_true, ↓reduceIte, hg, hs, hrt v', hfix, finish, hnt, Bool.and_false, Bool.false_and]
 
 /-- **n validations = 1 validation (whole body path).**  Stream and value layer together: outside `BranchShift`,
 however often the request is validated again — any security outcome, any Content-Type, any declared content — Body,
@@ -1071,102 +1095,54 @@ theorem body_path_n_validations (cfg : Stream.Cfg) (c : Ctx) (declared : List (S
       (Stream.validateStream cfg (bodyOutcome c declared header cd) r).2 := by
   apply stream_n_validations cfg _ r data h
   intro nd hnd
-  obtain ⟨_, _, _, v', _, _, _, _, e, _, _⟩ := rewrite_is_encoded_visit c declared header cd data nd hnd
-  exact ⟨by rw [e]; exact hne v', rewritten_body_is_accepted c declared hw header cd data nd hnd hrt hx⟩
+  obtain ⟨_, _, _, v', _, _, _, _, e, _, _, _⟩ := rewrite_is_encoded_visit c declared header cd data nd hnd
+  exact ⟨by rw [e]; exact hne v', Or.inl (rewritten_body_is_accepted c declared hw header cd data nd hnd hrt hx)⟩
 
-/-- The rewrite fails exactly in the class `NoBodyEncoder`. -/
-theorem rewriteFails_iff_noBodyEncoder (c : Ctx) (declared : List (String × Option S)) (header : String) (cd : Codec)
-    (data : Stream.Bytes) :
-    bodyOutcome c declared header cd data = .rewriteFails ↔ NoBodyEncoder c declared header cd data = true := by
-  rw [bodyOutcome_eq, noBodyEncoder_eq]
-  cases hd : declared with
-  | nil => simp [contentGet]
-  | cons e rest =>
-    simp only [List.isEmpty_cons, Bool.false_eq_true, ↓reduceIte]
-    cases hg : contentGet ((e :: rest).map (·.1)) header with
-    | none => simp
-    | some key =>
-      simp only
-      cases hs : schemaOf key (e :: rest) with
-      | none => simp
-      | some os =>
-        cases os with
-        | none => simp
-        | some s =>
-          simp only
-          cases hdv : decoded header cd data with
-          | none => simp
-          | some v =>
-            simp only
-            cases hv : visit c s v with
-            | none => simp
-            | some v' =>
-              simp only
-              unfold finish
-              cases h1 : c.setDefaults <;> cases h2 : touched c s v <;> cases h3 : hasEncoder (base header) <;> simp
-
-/-- In the fragment the rewrite can only fail for a YAML body. -/
-theorem rewriteFails_only_yaml (c : Ctx) (declared : List (String × Option S)) (header : String) (cd : Codec)
-    (data : Stream.Bytes) (h : bodyOutcome c declared header cd data = .rewriteFails) : decoderOf (base header) = .yaml := by
-  cases hd : decoderOf (base header) with
-  | yaml => rfl
-  | json =>
-    have := (rewriteFails_iff_noBodyEncoder c declared header cd data).mp h
-    rw [noBodyEncoder_eq] at this
-    simp [json_decoded_has_encoder _ hd] at this
-  | plain => rcases plain_body_never_rewritten c declared header cd data hd with k | k <;> rw [k] at h <;> cases h
-  | none =>
-    exfalso
-    rw [bodyOutcome_eq] at h
-    split at h
-    · cases h
-    · split at h
-      · cases h
-      · split at h
-        · simp [decoded, hd] at h
-        · cases h
-
-/-- F-C13-8 (what is left open): `Content-Type: application/yaml`, a property with a default is absent: the valid
-    request is rejected ("rewriting failed") where the spec forwards it with the default -/
+/-- F-C13-8 (what is left open after 54b25f5, 3ff760b, 4a27f6e): `Content-Type: application/x-www-form-urlencoded`, the
+    field of a property with a default is absent: the request is accepted (4a27f6e), but forwarded as received — the
+    spec forwards it with the default -/
 theorem witness_no_body_encoder :
-    let s : S := .obj {} [] [("d", .leaf { dflt := some (.num 7) } .number)] true
-    let declared : List (String × Option S) := [("application/yaml", some s)]
-    let cd : Codec := { parse := fun _ => none, yaml := fun _ => some (.obj []), text := fun _ => "", enc := fun _ => [1] }
-    NoBodyEncoder {} declared "application/yaml" cd [0] = true ∧
-    bodyOutcome {} declared "application/yaml" cd [0] = .rewriteFails ∧
-    specOutcome {} declared "application/yaml" cd [0] = .rewrite [1] := by
+    let s : S := .obj {} [] [("a", .leaf {} .string), ("d", .leaf { dflt := some (.num 7) } .number)] true
+    let declared : List (String × Option S) := [("application/x-www-form-urlencoded", some s)]
+    let cd : Codec := { parse := fun _ => none, yaml := fun _ => none, form := fun _ => some (.obj [("a", .str "x")]),
+                        text := fun _ => "", enc := fun _ => [1] }
+    NoBodyEncoder {} declared "application/x-www-form-urlencoded" cd [0] = true ∧
+    bodyOutcome {} declared "application/x-www-form-urlencoded" cd [0] = .accept ∧
+    specOutcome {} declared "application/x-www-form-urlencoded" cd [0] = .rewrite [1] := by
   decide
 
-/-- F-C13-11 (new, open): `anyOf [A: {required [q], x default 1}, B: {z: number}]` and the body `{"z":1}`: no default
-    applies and the value is forwarded as it is — but A's trial run wrote `x` into its private copy before rejecting it,
-    and that ran the `DefaultsSet` callback: a JSON body is re-encoded (model `rewrite`, spec `accept`: other bytes, same
-    value), a YAML body is rejected ("rewriting failed") although it is valid and needs no default -/
-theorem witness_discarded_candidate_touches :
+/-- regression (F-C13-11, repaired by 6a3f133): `anyOf [A: {required [q], x default 1}, B: {z: number}]` and the body
+    `{"z":1}`: no default applies, the value is forwarded as it is, the callback does not run (A's trial run writes `x`
+    only into its private copy): a JSON body and a YAML body are accepted and left alone — model = spec.  When a
+    default does apply (`{}` against B': z default 2) the callback runs. -/
+theorem regression_discarded_candidate_does_not_touch :
     let A : S := .obj {} ["q"] [("x", .leaf { dflt := some (.num 1) } .number)] true
     let B : S := .obj {} [] [("z", .leaf {} .number)] true
+    let B' : S := .obj {} [] [("z", .leaf { dflt := some (.num 2) } .number)] true
     let s : S := .comb {} .anyOf [A, B]
     let v : J := .obj [("z", .num 1)]
-    let cd : Codec := { parse := fun _ => some v, yaml := fun _ => some v, text := fun _ => "", enc := fun _ => [1] }
-    visit {} s v = some v ∧ touched {} s v = true ∧ DiscardedCandidateTouches {} s v = true ∧
-    ReencodedUnchanged {} [("application/json", some s)] "application/json" cd [0] = true ∧
-    bodyOutcome {} [("application/json", some s)] "application/json" cd [0] = .rewrite [1] ∧
+    let cd : Codec := { parse := fun _ => some v, yaml := fun _ => some v, form := fun _ => none, text := fun _ => "", enc := fun _ => [1] }
+    visit {} s v = some v ∧ touched {} s v = false ∧
+    bodyOutcome {} [("application/json", some s)] "application/json" cd [0] = .accept ∧
     specOutcome {} [("application/json", some s)] "application/json" cd [0] = .accept ∧
-    bodyOutcome {} [("application/yaml", some s)] "application/yaml" cd [0] = .rewriteFails ∧
+    bodyOutcome {} [("application/yaml", some s)] "application/yaml" cd [0] = .accept ∧
     specOutcome {} [("application/yaml", some s)] "application/yaml" cd [0] = .accept ∧
-    touched {} B v = false := by
-  refine ⟨by rfl, by rfl, by rfl, by decide, by decide, by decide, by decide, by decide, by rfl⟩
+    touched {} (.comb {} .anyOf [A, B']) (.obj []) = true := by
+  refine ⟨by rfl, by rfl, by decide, by decide, by decide, by decide, by rfl⟩
 
-/-- regression (F-C13-8, first face, repaired by 54b25f5): `Content-Type: application/problem+json`, a property with a
-    default is absent: the body is forwarded re-encoded with the default — model = spec (before the repair the model
-    answered `rewriteFails`) -/
-theorem regression_json_family_encoder :
+/-- regression (F-C13-8, repaired by 54b25f5 for the +json family and by 3ff760b for YAML): a property with a default is
+    absent: the body is forwarded re-encoded with the default — model = spec (before the repairs the model answered
+    `rewriteFails`) -/
+theorem regression_json_family_and_yaml_encoder :
     let s : S := .obj {} [] [("d", .leaf { dflt := some (.num 7) } .number)] true
-    let declared : List (String × Option S) := [("application/problem+json", some s)]
-    let cd : Codec := { parse := fun _ => some (.obj []), yaml := fun _ => none, text := fun _ => "", enc := fun _ => [1] }
-    NoBodyEncoder {} declared "application/problem+json" cd [0] = false ∧
-    bodyOutcome {} declared "application/problem+json" cd [0] = .rewrite [1] ∧
-    specOutcome {} declared "application/problem+json" cd [0] = .rewrite [1] ∧
-    jsonTypes.all hasEncoder = true := by
+    let cd : Codec := { parse := fun _ => some (.obj []), yaml := fun _ => some (.obj []), form := fun _ => none, text := fun _ => "", enc := fun _ => [1] }
+    NoBodyEncoder {} [("application/problem+json", some s)] "application/problem+json" cd [0] = false ∧
+    bodyOutcome {} [("application/problem+json", some s)] "application/problem+json" cd [0] = .rewrite [1] ∧
+    specOutcome {} [("application/problem+json", some s)] "application/problem+json" cd [0] = .rewrite [1] ∧
+    bodyOutcome {} [("application/yaml", some s)] "application/yaml; charset=utf-8" cd [0] = .rewrite [1] ∧
+    specOutcome {} [("application/yaml", some s)] "application/yaml; charset=utf-8" cd [0] = .rewrite [1] ∧
+    bodyOutcome {} [("application/x-yaml", some s)] "application/x-yaml" cd [0] = .rewrite [1] ∧
+    (jsonTypes ++ yamlTypes).all hasEncoder = true := by
   decide
 
 /-- non-vacuity (the seeded-defect shape): `application/json; charset=utf-8` against a declared `application/json`:
@@ -1174,7 +1150,7 @@ theorem regression_json_family_encoder :
 example :
     let s : S := .obj {} [] [("d", .leaf { dflt := some (.num 7) } .number)] true
     let declared : List (String × Option S) := [("application/json", some s)]
-    let cd : Codec := { parse := fun _ => some (.obj []), yaml := fun _ => none, text := fun _ => "", enc := fun _ => [1] }
+    let cd : Codec := { parse := fun _ => some (.obj []), yaml := fun _ => none, form := fun _ => none, text := fun _ => "", enc := fun _ => [1] }
     let cd1 : Codec := { cd with parse := fun _ => some (.obj [("d", .num 1)]) }
     declaredWf declared = true ∧
     NoBodyEncoder {} declared "application/json; charset=utf-8" cd [0] = false ∧
